@@ -1,6 +1,6 @@
 """What is claimed, per property. A property appears in CLAIMS only once its checker exists and
 passes on the unchanged tree."""
-FIX_COMMITS = ["4e9e139", "5ee6583", "744f482"]
+FIX_COMMITS = ["4e9e139", "5ee6583", "744f482", "eb93a13"]
 
 CLAIMS = {
     "C09": dict(
@@ -39,6 +39,15 @@ CLAIMS = {
         ref="DESIGN.md §3 C16",
         note="trusts the frozen table of list/set mutators that can add elements and CPython's evaluation order of augmented assignment on descriptors",
         technique="static analysis: MRO-resolved override coverage, call-closure reachability, CFG ordering, decision table of the hook",
+    ),
+    "C12": dict(
+        text="Decides argument alignment at every merge site (skipped signature prefix = parameters not covered by the forwarded "
+             "positional arguments), the dispatch shape of both wrappers (symbolic test on the merged mapping, symbolic path runs "
+             "nothing, concrete path forwards unchanged) and the per-binding instantiation (one keyword call, predicate called, "
+             "falsity = not bool(result), no cache). User predicate bodies are outside the property.",
+        ref="DESIGN.md §3 C12",
+        note="trusts inspect.signature's parameter order; truth contributed to enclosing operators is C01",
+        technique="static analysis: call-site argument/signature alignment rule + dispatch-shape check on resolved ASTs",
     ),
 }
 
